@@ -126,6 +126,9 @@ func VoteTx(voter *Key, prev *common2.Input, vt outputpayload.VoteType, cvs []CV
 	return tx
 }
 
+// DraftHash is the draft hash of the proposal built under this label.
+func DraftHash(label string) common.Uint256 { return draftHash(label) }
+
 func draftHash(label string) common.Uint256 {
 	return common.Hash([]byte("verif-draft-" + label))
 }
